@@ -130,6 +130,17 @@ Qed.
 Definition nochain (e : Z) (m : gmap bytes account) : Prop :=
   forall k, due e m k = true -> due e m (parent (get_acc m k)) = false.
 
+(** Decidable form of [nochain], for concrete ledgers ([vm_compute]). *)
+Definition nochainb (e : Z) (m : gmap bytes account) : bool :=
+  forallb (fun k => negb (due e m k) || negb (due e m (parent (get_acc m k)))) (skeys m).
+Lemma nochainb_sound e m : nochainb e m = true -> nochain e m.
+Proof.
+  unfold nochainb, nochain. intros H k Hk.
+  assert (Hin : k ∈ skeys m) by (apply elem_of_skeys; eapply due_present; exact Hk).
+  rewrite forallb_forall in H. specialize (H k). rewrite <- elem_of_list_In in H.
+  specialize (H Hin). rewrite Hk in H. simpl in H. destruct (due e m (parent (get_acc m k))); [discriminate|reflexivity].
+Qed.
+
 (** What the already visited due accounts [V] have paid to [k]. *)
 Fixpoint paid (e : Z) (m0 : gmap bytes account) (V : list bytes) (k : bytes) : Z :=
   match V with
